@@ -15,12 +15,22 @@
       sleeps-and-retries (a statement re-issued inside an open transaction runs after InnoDB may already have rolled the transaction back)
   R6  one Database operation == one transaction: every Database method opens at most one transaction per call (one `self.start()` or one
       call of another transaction-opening method), never inside a loop; the array of execute_many reaches a single Transaction.execute_many
+  R7  the error that reaches the retry classifier is the one the driver raised (DB layer, gear/gear/database.py): every `except`
+      handler between the retry wrapper and the statements is evaluated over the finite abstract domain of the caught error
+      {OperationalError, InternalError} x {code in / not in the retry table} + other MySQL error + non-MySQL error (tests on the
+      classifier, isinstance and `exc.args[0]` are interpreted on that domain, other tests are free booleans): on every path a
+      retryable error leaves the handler as the same exception or as another retryable one, a non-retryable one is never replaced by
+      an error the classifier accepts, and a retryable one is not swallowed; no statement of the layer fabricates an error the
+      classifier accepts outside a handler.  Functions only ever scheduled as background tasks are outside the retry path.
+  R8  the same decision for application code that runs inside a retried transaction (functions decorated with @transaction /
+      @retry_transient_mysql_errors and functions that receive an open `tx`), whole repository in the thorough tier
 Not decided: MySQL/InnoDB behaviour itself; which error codes the server actually emits.
 """
 from __future__ import annotations
 
 import ast
-from typing import Dict, List, Optional, Set, Tuple
+import builtins
+from typing import Dict, FrozenSet, List, Optional, Set, Tuple
 
 from engines import absdom, pyfacts as pf
 from engines import sqlfront as sf
@@ -381,6 +391,325 @@ def r6(ctx: Ctx, m: pf.Module) -> None:
         ctx.check(ok, 'R6', f'{DB}::Database.execute_many::whole array in one transaction', 'Database.execute_many does not hand its whole argument array to a single Transaction.execute_many', m.path, em.lineno)
 
 
+# --------------------------------------------------------------------------------------
+# R7 / R8: no handler on the retry path changes the retryability of the error the classifier sees
+# --------------------------------------------------------------------------------------
+# abstract domain of the caught exception: (class, retryable by the classifier)
+K_OP_T, K_OP_F, K_IN_T, K_IN_F, K_OTHER, K_NON = ('OperationalError', True), ('OperationalError', False), ('InternalError', True), ('InternalError', False), ('OtherMySQL', False), ('NonMySQL', False)
+KINDS = (K_OP_T, K_OP_F, K_IN_T, K_IN_F, K_OTHER, K_NON)
+MYSQL_KINDS = frozenset(KINDS[:5])
+WITNESS = {K_OP_T: 'pymysql.err.OperationalError(1213, "Deadlock found when trying to get lock")', K_OP_F: 'pymysql.err.OperationalError(1317, "Query execution was interrupted")',
+           K_IN_T: 'pymysql.err.InternalError(1205, "Lock wait timeout exceeded")', K_IN_F: 'pymysql.err.InternalError(1030, "Got error 28 from storage engine")',
+           K_OTHER: 'pymysql.err.IntegrityError(1062, "Duplicate entry")', K_NON: 'asyncio.TimeoutError()'}
+# pymysql.err hierarchy (trusted): MySQLError > {Warning, Error > {InterfaceError, DatabaseError > {DataError, OperationalError, IntegrityError, InternalError, ProgrammingError, NotSupportedError}}}
+MYSQL_ROOTS = ('MySQLError', 'Error')
+MYSQL_LEAVES = ('IntegrityError', 'ProgrammingError', 'DataError', 'NotSupportedError', 'InterfaceError', 'Warning')
+BUILTIN_EXC = {n for n in dir(builtins) if isinstance(getattr(builtins, n), type) and issubclass(getattr(builtins, n), BaseException)}
+
+
+def _exc_class(m: pf.Module, e: Optional[ast.expr], depth: int = 0) -> Optional[str]:
+    """'ANY' (Exception/BaseException), 'mysql:<Class>', 'nonmysql', or None when the class cannot be resolved."""
+    if e is None:
+        return 'ANY'
+    d = pf.dotted(e)
+    if d is None or depth > 4:
+        return None
+    parts = d.split('.')
+    imp = m.imports()
+    if parts[0] in imp:
+        full = (imp[parts[0]] + ('.' + '.'.join(parts[1:]) if parts[1:] else '')).lstrip('.')
+        if full.split('.')[0] in ('pymysql', 'aiomysql'):
+            name = full.split('.')[-1]
+            if name in MYSQL_ROOTS + MYSQL_LEAVES + ('DatabaseError', 'OperationalError', 'InternalError'):
+                return 'mysql:' + name
+            return None
+        return 'nonmysql'
+    if len(parts) == 1:
+        for c in m.tree.body:
+            if isinstance(c, ast.ClassDef) and c.name == d:
+                bs = [_exc_class(m, b, depth + 1) for b in c.bases]
+                if not bs or any(b is None for b in bs):
+                    return None
+                my = [b for b in bs if b.startswith('mysql:')]
+                return my[0] if my else 'nonmysql'
+        if d in ('Exception', 'BaseException'):
+            return 'ANY'
+        if d in BUILTIN_EXC:
+            return 'nonmysql'
+    return None
+
+
+def _kinds_of(cls: str) -> Tuple[FrozenSet, FrozenSet]:
+    """(kinds an instance test on the class may accept, kinds it accepts entirely)."""
+    if cls == 'ANY':
+        return frozenset(KINDS), frozenset(KINDS)
+    if cls == 'nonmysql':
+        return frozenset([K_NON]), frozenset()
+    name = cls.split(':')[1]
+    if name in MYSQL_ROOTS:
+        return MYSQL_KINDS, MYSQL_KINDS
+    if name == 'DatabaseError':
+        return MYSQL_KINDS, frozenset([K_OP_T, K_OP_F, K_IN_T, K_IN_F])
+    if name == 'OperationalError':
+        return frozenset([K_OP_T, K_OP_F]), frozenset([K_OP_T, K_OP_F])
+    if name == 'InternalError':
+        return frozenset([K_IN_T, K_IN_F]), frozenset([K_IN_T, K_IN_F])
+    return frozenset([K_OTHER]), frozenset()
+
+
+def _type_kinds(m: pf.Module, t: Optional[ast.expr]) -> Optional[Tuple[FrozenSet, FrozenSet]]:
+    elts = t.elts if isinstance(t, ast.Tuple) else [t]
+    may: Set = set()
+    full: Set = set()
+    for e in elts:
+        c = _exc_class(m, e)
+        if c is None:
+            return None
+        a, b = _kinds_of(c)
+        may |= a
+        full |= b
+    return frozenset(may), frozenset(full)
+
+
+class _Tables:
+    def __init__(self, op: Set[int], it: Set[int]):
+        self.codes = {'OperationalError': op, 'InternalError': it}
+        self.names = {'operational_error_retry_codes': 'OperationalError', 'internal_error_retry_codes': 'InternalError'}
+
+
+def _atom_value(m: pf.Module, a: ast.AST, nm: Optional[str], k: Tuple[str, bool], tb: _Tables) -> Optional[bool]:
+    """Value of a handler test atom on the abstract caught exception k, None = not determined by k (free boolean)."""
+    if isinstance(a, ast.NamedExpr):
+        a = a.value
+    if nm is None:
+        return None
+    cl = f'exception_log_level_if_retryable({nm})'
+    if pf.nsrc(a) == cl:
+        return k[1]
+    if isinstance(a, ast.Compare) and len(a.ops) == 1:
+        left, op, right = a.left, a.ops[0], a.comparators[0]
+        if isinstance(left, ast.NamedExpr):
+            left = left.value
+        if pf.nsrc(left) == cl and isinstance(right, ast.Constant) and right.value is None and isinstance(op, (ast.Is, ast.IsNot, ast.Eq, ast.NotEq)):
+            return (not k[1]) if isinstance(op, (ast.Is, ast.Eq)) else k[1]
+        if pf.nsrc(left) == f'{nm}.args[0]' and k[0] in tb.codes:
+            table = tb.codes[k[0]]
+            neg = isinstance(op, (ast.NotEq, ast.NotIn))
+            res: Optional[bool] = None
+            if isinstance(op, (ast.Eq, ast.NotEq)) and isinstance(right, ast.Constant) and isinstance(right.value, int):
+                res = False if (right.value in table) != k[1] else None
+            elif isinstance(op, (ast.In, ast.NotIn)):
+                cs = _int_tuple(right)
+                if cs is not None:
+                    if k[1] and not (cs & table):
+                        res = False
+                    elif not k[1] and cs <= table:
+                        res = False
+                elif isinstance(right, ast.Name) and tb.names.get(right.id) == k[0]:
+                    res = k[1]
+            if res is None:
+                return None
+            return (not res) if neg else res
+    if isinstance(a, ast.Call) and pf.dotted(a.func) == 'isinstance' and len(a.args) == 2 and pf.nsrc(a.args[0]) == nm:
+        tk = _type_kinds(m, a.args[1])
+        if tk is None:
+            return None
+        may, full = tk
+        if k not in may:
+            return False
+        if k in full:
+            return True
+    return None
+
+
+def _raised_retryable(m: pf.Module, e: ast.expr, tb: _Tables) -> Optional[bool]:
+    """Does the classifier accept the freshly constructed exception `e`?  None = cannot tell."""
+    cls = _exc_class(m, e.func if isinstance(e, ast.Call) else e)
+    if cls is None:
+        return None
+    if cls in ('ANY', 'nonmysql'):
+        return False
+    name = cls.split(':')[1]
+    if name not in tb.codes:
+        return False
+    if isinstance(e, ast.Call) and e.args and isinstance(e.args[0], ast.Constant) and isinstance(e.args[0].value, int) and not e.keywords:
+        return e.args[0].value in tb.codes[name]
+    if isinstance(e, ast.Call) and not e.args and not e.keywords:
+        return False    # exc.args == () -> the classifier's exc.args[0] raises IndexError: not retried either
+    return None
+
+
+def _handler_verdict(m: pf.Module, tr: ast.Try, h: ast.ExceptHandler, tb: _Tables) -> Tuple[str, str]:
+    """('ok'|'bad', text).  Raises AnalysisError when the handler cannot be decided."""
+    tk = _type_kinds(m, h.type) if h.type is not None else (frozenset(KINDS), frozenset(KINDS))
+    pure = all(isinstance(s, ast.Raise) and s.exc is None for s in h.body)
+    if pure:
+        return 'ok', 're-raises unchanged'
+    if tk is None:
+        raise AnalysisError(f'handler `except {pf.nsrc(h.type)}` at line {h.lineno}: exception class not resolved')
+    kinds = set(tk[0])
+    for prev in tr.handlers:
+        if prev is h:
+            break
+        pk = _type_kinds(m, prev.type) if prev.type is not None else (frozenset(KINDS), frozenset(KINDS))
+        if pk is not None:
+            kinds -= pk[1]
+    nm = h.name
+    atoms = absdom.collect_test_atoms(h.body)
+    stores = [s for s in ast.walk(ast.Module(body=h.body, type_ignores=[])) if isinstance(s, (ast.Assign, ast.AnnAssign, ast.AugAssign)) and nm and s.value is not None and nm in pf.names_in(s.value)]
+    problems: List[str] = []
+    undecidable: List[str] = []
+    for k in [x for x in KINDS if x in kinds]:
+        det = {absdom.atom_key(a): _atom_value(m, a, nm, k, tb) for a in atoms}
+        free = [key for key, v in det.items() if v is None]
+        if len(free) > 8:
+            raise AnalysisError(f'handler at line {h.lineno}: {len(free)} undetermined tests')
+        free_mentions = [key for key in free if nm and any(isinstance(n, ast.Name) and n.id == nm for a in atoms if absdom.atom_key(a) == key for n in ast.walk(a))]
+        for val in absdom.valuations(free):
+            full = dict(det)
+            full.update(val)
+            o = absdom.walk_block(h.body, lambda a, full=full: bool(full[absdom.atom_key(a)]))
+            why = None
+            if o.kind == 'raise':
+                ex = o.node.exc
+                same = ex is None or (isinstance(ex, ast.Name) and ex.id == nm) or \
+                    (isinstance(ex, ast.Call) and isinstance(ex.func, ast.Attribute) and ex.func.attr == 'with_traceback' and isinstance(ex.func.value, ast.Name) and ex.func.value.id == nm)
+                if same:
+                    continue
+                r = _raised_retryable(m, ex, tb)
+                if r is None:
+                    undecidable.append(f'`{pf.nsrc(o.node)[:90]}`: cannot tell whether the classifier accepts the raised exception')
+                    continue
+                if r and not k[1]:
+                    why = (f'{WITNESS[k]} raised inside the `try` is replaced by `{pf.nsrc(ex)[:110]}`, which the classifier accepts: an error that is not a deadlock / lock-wait timeout / lost connection / '
+                           'connection limit is retried (with unbounded back-off) and never reported to the caller')
+                elif not r and k[1]:
+                    why = (f'{WITNESS[k]} raised inside the `try` is replaced by `{pf.nsrc(ex)[:110]}`, which the classifier rejects: the transient error is reported to the caller instead of the '
+                           'transaction being retried')
+            else:
+                if k[1]:
+                    if stores and o.kind == 'fall':
+                        undecidable.append(f'the handler stores `{nm}` and falls through; a later re-raise is not tracked')
+                        continue
+                    why = (f'{WITNESS[k]} raised inside the `try` is swallowed (handler path ends in `{o.kind}`): the transient error neither reaches the retry wrapper nor aborts the attempt')
+            if why is not None:
+                if free_mentions:
+                    undecidable.append(f'verdict depends on tests of `{nm}` that are not interpreted: {free_mentions}')
+                else:
+                    cond = [f'{key}={v}' for key, v in full.items()]
+                    problems.append(why + (f' [path: {", ".join(cond)}]' if cond else ''))
+    if undecidable and not problems:
+        raise AnalysisError(f'handler `except {pf.nsrc(h.type) if h.type else ""}` at line {h.lineno}: ' + undecidable[0])
+    if problems:
+        return 'bad', problems[0]
+    return 'ok', f'{len(kinds)} abstract error kinds x {len(atoms)} tests: retryability preserved on every path'
+
+
+def _handler_sites(m: pf.Module, fns: List[Tuple[str, pf.FuncDef]]) -> List[Tuple[str, pf.FuncDef, ast.Try, ast.ExceptHandler, str]]:
+    out = []
+    for q, fn in fns:
+        seen: Dict[str, int] = {}
+        for t in sorted((t for t in pf.walk_shallow(fn) if isinstance(t, ast.Try)), key=lambda t: (t.lineno, t.col_offset)):
+            for h in t.handlers:
+                ty = pf.nsrc(h.type) if h.type is not None else '<bare>'
+                seen[ty] = seen.get(ty, 0) + 1
+                out.append((q, fn, t, h, f'except {ty}' + (f' #{seen[ty]}' if seen[ty] > 1 else '')))
+    return out
+
+
+def _tables(m: pf.Module) -> _Tables:
+    op = _int_tuple(m.global_assign('operational_error_retry_codes'))
+    it = _int_tuple(m.global_assign('internal_error_retry_codes'))
+    if op is None or it is None:
+        raise AnalysisError('retry code tables are not literal tuples')
+    return _Tables(op, it)
+
+
+BACKGROUND = ('ensure_future', 'create_task')
+
+
+def r7(ctx: Ctx, m: pf.Module) -> None:
+    tb = _tables(m)
+    par = m.parents()
+    fns = m.functions()
+    # functions whose every use in the module is the direct argument of a background-task spawn are not on the retry path
+    background: Set[str] = set()
+    for q, fn in fns:
+        if '.' in q:
+            continue
+        uses = [n for n in ast.walk(m.tree) if isinstance(n, ast.Name) and n.id == q and isinstance(n.ctx, ast.Load)]
+        def spawned(n: ast.Name) -> bool:
+            c = par.get(n)
+            if not (isinstance(c, ast.Call) and c.func is n):
+                return False
+            sp = par.get(c)
+            return isinstance(sp, ast.Call) and c in sp.args and (pf.dotted(sp.func) or '').split('.')[-1] in BACKGROUND
+        if uses and all(spawned(n) for n in uses):
+            background.add(q)
+    scope = [(q, fn) for q, fn in fns if q != 'retry_transient_mysql_errors.wrapper' and q.split('.')[0] not in background]
+    n = 0
+    for q, fn, tr, h, label in _handler_sites(m, scope):
+        n += 1
+        verdict, text_ = _handler_verdict(m, tr, h, tb)
+        ctx.check(verdict == 'ok', 'R7', f'{DB}::{q}::{label}', f'{q}: {text_}', m.path, h.lineno, detail=text_)
+    for q, fn in scope:
+        for st in pf.walk_shallow(fn):
+            if not isinstance(st, ast.Raise) or st.exc is None:
+                continue
+            x: ast.AST = st
+            in_handler = False
+            while x is not fn:
+                x = par[x]
+                if isinstance(x, ast.ExceptHandler):
+                    in_handler = True
+            if in_handler:
+                continue
+            r = _raised_retryable(m, st.exc, tb)
+            if isinstance(st.exc, ast.Name) and r is None:
+                continue    # re-raise of a stored exception object
+            n += 1
+            if r is None:
+                c = _exc_class(m, st.exc.func if isinstance(st.exc, ast.Call) else st.exc)
+                ctx.need(c is not None and c.startswith('mysql:'), f'{q}: cannot resolve the class of `{pf.nsrc(st)[:90]}`')
+                raise AnalysisError(f'{q}: `{pf.nsrc(st)[:90]}` constructs a MySQL error whose code is not a literal')
+            ctx.check(not r, 'R7', f'{DB}::{q}::raise {pf.nsrc(st.exc.func if isinstance(st.exc, ast.Call) else st.exc)}',
+                      f'{q}: `{pf.nsrc(st)[:120]}` fabricates an error the retry classifier accepts: a condition that is not one of the transient MySQL errors makes every retried operation loop with back-off',
+                      m.path, st.lineno)
+    ctx.need(n >= 3, f'DB layer: only {n} handlers / raise sites found')
+    ctx.unit('db_layer_handlers', n)
+
+
+def _in_tx_functions(mm: pf.Module) -> List[Tuple[str, pf.FuncDef]]:
+    out = []
+    for q, fn in mm.functions():
+        decos = [pf.dotted(d.func) if isinstance(d, ast.Call) else pf.dotted(d) for d in fn.decorator_list]
+        names = {(d or '').split('.')[-1] for d in decos}
+        params = [a.arg for a in fn.args.posonlyargs + fn.args.args + fn.args.kwonlyargs]
+        if names & {'transaction', 'retry_transient_mysql_errors'} or 'tx' in params:
+            out.append((q, fn))
+    return out
+
+
+def r8(ctx: Ctx, m: pf.Module) -> None:
+    tb = _tables(m)
+    dirs = ['batch', 'gear', 'auth', 'ci', 'monitoring', 'web_common', 'website', 'notebook'] if ctx.tier == 'thorough' else ['batch/batch', 'gear/gear', 'auth/auth', 'ci/ci']
+    n = 0
+    for rel in pf.walk_py(dirs):
+        if rel == DB:
+            continue
+        try:
+            mm = pf.load(rel)
+        except (AnalysisError, SyntaxError):
+            continue
+        if 'tx' not in mm.src and 'transaction' not in mm.src:
+            continue
+        for q, fn, tr, h, label in _handler_sites(mm, _in_tx_functions(mm)):
+            n += 1
+            verdict, text_ = _handler_verdict(mm, tr, h, tb)
+            ctx.check(verdict == 'ok', 'R8', f'{rel}::{q}::{label}', f'{q} runs inside a retried transaction: {text_}', mm.path, h.lineno, detail=text_)
+    ctx.unit('in_transaction_handlers', n)
+
+
 def run(ctx: Ctx) -> None:
     ctx.explanation = 'Retry decision table and code tables, nesting of retry around transactions at every retried site, exit discipline, and cross-language transaction rules over the SQL program.'
     ctx.rule('R1', 'retry wrapper re-raises iff the classifier is falsy; classifier == {InternalError 1205, OperationalError 1040/1213/2003/2013} with truthy levels', 7)
@@ -389,6 +718,8 @@ def run(ctx: Ctx) -> None:
     ctx.rule('R4', 'procedures: balanced transactions, no transaction statements in nested callees/triggers/functions; no implicit commit after a write on an open Transaction', 36)
     ctx.rule('R5', 'inside Transaction a failing statement aborts the transaction: no handler swallows/re-issues, no retry decorator, no back-off', 21)
     ctx.rule('R6', 'every Database operation opens exactly one transaction per call, never in a loop; execute_many forwards its whole array', 10)
+    ctx.rule('R7', 'DB layer: every handler between the retry wrapper and the statements preserves the retryability of the caught error (abstract domain class x code-in-table); no fabricated transient errors', 3)
+    ctx.rule('R8', 'application code inside a retried transaction: handlers neither turn a transient error into a non-retryable one nor the reverse, nor swallow it', 5)
     m = pf.load(DB)
     r1(ctx, m)
     r2(ctx, m)
@@ -396,3 +727,5 @@ def run(ctx: Ctx) -> None:
     r4(ctx)
     r5(ctx, m)
     r6(ctx, m)
+    r7(ctx, m)
+    r8(ctx, m)
